@@ -37,4 +37,8 @@ def run(rep, tier):
     for K, want in FLOORS.items():
         rep.floor(f'configurations of {K}', total.get(K, 0), want)
     shared.literal_mapping(rep)
+    # `a | b` commits in the written order and keeps compound operands (a sequence, Longest, Skip) whole: the
+    # translator's handling of `|` against the constructor form (rule shared with C19)
+    from .. import mapping
+    mapping.spelling_pairs(rep)
     shared.controls_e1(rep)
